@@ -613,7 +613,7 @@ fn run_all(ctx: &Ctx) -> i32 {
             let probe = run_blots(&[text.clone()], None, None);
             timed_out |= probe.timed_out;
             best = best.min(t0.elapsed());
-            if best < std::time::Duration::from_millis(150) || timed_out {
+            if best < std::time::Duration::from_millis(150) || best > std::time::Duration::from_millis(1500) || timed_out {
                 break;
             }
         }
